@@ -124,6 +124,30 @@ Theorem C10_contract_returned_is_contract_signed :
 Proof. exact contract_returned_is_contract_signed. Qed.
 Print Assumptions C10_contract_returned_is_contract_signed.
 
+(** request validity is a premise of proof-verification soundness: core's roots and
+    free verifiers are total and sound only on a legal request ([core_verify_roots],
+    [core_verify_free]: the empty contract accepts any roots, an illegal range or index
+    panics). The client consults them only when its own validation has established that
+    premise, and then they compute exactly the fact the binding theorems use. *)
+Theorem C10_verifiers_consulted_only_inside_their_contract :
+  (∀ R (v : view R) p auth offset length dec nroots sig_ok,
+     roots_decide v p auth offset length dec nroots true sig_ok ≠ roots_decide v p auth offset length dec nroots false sig_ok →
+     length ≠ 0 ∧ offset + length ≤ v_filesize v / sector_size ∧ length ≤ max_sector_batch ∧ nroots = length)
+  ∧ (∀ c offset length pre post roots root,
+     length ≠ 0 → offset + length ≤ v_filesize (c_view c) / sector_size → len roots = length →
+     core_verify_roots pre post roots (num_sectors_up c) offset (offset + length) root ≠ VOutside
+     ∧ vres_ok (core_verify_roots pre post roots (num_sectors_up c) offset (offset + length) root)
+       = verify_roots pre post roots (num_sectors_up c) offset (offset + length) root)
+  ∧ (∀ R (v : view R) p idxs dec1 newroot dec3 sig_ok,
+     free_decide v p idxs dec1 newroot true dec3 sig_ok ≠ free_decide v p idxs dec1 newroot false dec3 sig_ok →
+     match idxs with i :: _ => i < v_filesize v / sector_size | [] => True end)
+  ∧ (∀ n old idxs oldroot newroot,
+     match normalize idxs with i :: _ => i < n | [] => True end →
+     core_verify_free n old (normalize idxs) oldroot newroot ≠ VOutside
+     ∧ vres_ok (core_verify_free n old (normalize idxs) oldroot newroot) = verify_free n old (normalize idxs) oldroot newroot).
+Proof. exact verifiers_consulted_only_inside_their_contract. Qed.
+Print Assumptions C10_verifiers_consulted_only_inside_their_contract.
+
 (** replenish: every deposit ≤ target, one deposit per account, and the charge is the sum
     of the deposits, at most target × number of accounts. *)
 Theorem C10_replenish_cost_bound :
